@@ -196,6 +196,11 @@ def entry_points(T: str, D: str, variant: int = 0):
         eps.append(("transpose", lambda: numpoly.transpose(numpoly.reshape(_poly(T, xT, one), (1, 3))), {(0,): xT.reshape(3, 1), (1,): one.reshape(3, 1)}))
         eps.append(("full", lambda: numpoly.full((2,), _poly(T, xT[:1], one[:1])[0]), {(0,): numpy.full((2,), xT[0]), (1,): numpy.full((2,), one[0])}))
     eps.append(("astype(D)", lambda: _poly(T, xT, one).astype(D), {(0,): castTD, (1,): one.astype(D)}))
+    # a dtype requested together with other keywords that change nothing (the polynomial's own names, in every accepted form)
+    for nlabel, nm in (("names=p.names", lambda p: p.names), ("names=list", lambda p: list(p.names)), ("names=p.indeterminants", lambda p: p.indeterminants), ("names='q0'", lambda p: "q0")):
+        eps.append(("aspolynomial(p_T, %s, dtype=D)" % nlabel, lambda nm=nm: (lambda p: numpoly.aspolynomial(p, names=nm(p), dtype=D))(_poly(T, xT, one)), {(0,): castTD, (1,): one.astype(D)}))
+    eps.append(("polynomial(p_T, names=p.names, dtype=D)", lambda: (lambda p: numpoly.polynomial(p, names=p.names, dtype=D))(_poly(T, xT, one)), {(0,): castTD, (1,): one.astype(D)}))
+    eps.append(("aspolynomial(p_T, dtype=D)", lambda: numpoly.aspolynomial(_poly(T, xT, one), dtype=D), {(0,): castTD, (1,): one.astype(D)}))
     # arithmetic between dtypes: numpy's promoted dtype and values on the raw arrays
     oneD = _lin(D, variant)
     with numpy.errstate(all="ignore"):
